@@ -171,9 +171,9 @@ def run(prog, ctx):
         raise Inconclusive("econf_mergeFiles: allocation of the output array not found")
     size = render(cap.call_args()[0] if cap.j["callee"] == "malloc" else cap)
     b, o = m.params[1]["name"], m.params[2]["name"]
-    terms = set(re.findall(r"(\w+)->length", size))
+    terms = set(re.findall(r"(\w+)->(?:alloc_)?length", size))      # alloc_length >= length: room to spare, never too little
     if terms == {b, o} and "+" in size:
-        ctx.ok("M4", "capacity of the output array", cap.where, "(%s->length + %s->length) entries" % (b, o))
+        ctx.ok("M4", "capacity of the output array", cap.where, "(%s->length + %s->length) entries%s" % (b, o, " (a capacity used for a length: not less)" if "alloc_length" in size else ""))
     else:
         ctx.fail("M4", "capacity of the output array", cap.where, "allocated for `%s`: not base.length + override.length" % size, key="capacity")
     # ---- M4 charging -------------------------------------------------------------------------------------
